@@ -106,7 +106,7 @@ class BallotGraph(Graph):
         Gc = nx.Graph()
         # base cases
         if n == 1:
-            Gc.add_nodes_from([(1)], weight=0, cast=False)
+            Gc.add_nodes_from([(1,)], weight=0, cast=False)
 
         elif n == 2:
             Gc.add_nodes_from([(1, 2), (2, 1)], weight=0, cast=False)
